@@ -60,10 +60,12 @@ Notation "m ;;; k" := (bind m (fun _ => k)) (at level 61, right associativity).
 (* the work of one loop iteration / n visited bytes *)
 Definition tick (n : N) : M unit := (SOk tt, mkCost n 0 0).
 
-(* Vec::with_capacity(n) / vec![0; n] / resize / extend to a total of n bytes: panics with "capacity
-   overflow" above isize::MAX; below that the allocator decides (a refusal aborts the process) -- the request
-   is recorded so that the e_alloc theorems can bound it by the input size. *)
-Definition request (n : N) : M unit :=
+(* growth of a Vec the code fills itself (push / extend / write_all / collect) to a total of n bytes: the request is
+   recorded so that the e_alloc theorems can bound it by the input size *)
+Definition request (n : N) : M unit := (SOk tt, mkCost 0 n 0).
+(* Vec::with_capacity(n) / vec![0; n] with n CHOSEN BY THE FILE: panics with "capacity overflow" above isize::MAX;
+   below that the allocator decides (a refusal aborts the process): recorded like any request *)
+Definition request_chosen (n : N) : M unit :=
   if ISIZE_MAX <? n then (SPanic RCapacity, mkCost 0 n 0) else (SOk tt, mkCost 0 n 0).
 (* try_reserve(n): an impossible request is an Err, never a panic *)
 Definition try_request (n : N) : M unit :=
